@@ -6,71 +6,71 @@ props = [json.loads(l) for l in open(os.path.join(V, 'properties.jsonl'))]
 
 HIST = "explicit-state BFS over operation histories on the real implementation with a reference model in lock-step (histmc)"
 NOTE = ("Verdict = no member of the stated finite space violates the property (small-scope; bounds in evidence). "
-        "Runs on an instrumented copy of /repo's working tree (import redirection only for this check); conformance of the copy: the repository's own suite passes on it. Float tolerance 1e-5; ties unspecified.")
+        "Runs on an instrumented copy of /repo's working tree (import redirection only for this check; package-level state of the code under test is re-initialised before every execution); conformance of the copy: the repository's own suite passes on it. Float tolerance 1e-5 relative to the data's unit; ties unspecified.")
 C = {}
 C["C01"] = dict(engine="histmc", cat="model_checking", technique=HIST,
-  text="Every Add/Remove/Flush history up to the depth bound over colliding ids and a tie-rich vector alphabet is executed on the real FlatIndex; in every reached state every query of the alphabet (query x k x threshold x id restriction) is compared with a brute-force float64 oracle. Exhaustive within the bound, nothing sampled. Plus enumerated size dimensions: every n in 1..70/300 with five tails (mass deletes, update of one vector, remove-all-then-add) and large instances (n up to 1030/4100, k up to n); Remove with a node carrying another vector.",
+  text="Every Add/Remove/Flush history up to the depth bound over colliding ids and a tie-rich vector alphabet is executed on the real FlatIndex; in every reached state every query of the alphabet (query x k x threshold x id restriction) is compared with a brute-force float64 oracle. Exhaustive within the bound, nothing sampled. Plus enumerated size dimensions: every n in 1..70/300 with five tails (mass deletes, update of one vector, remove-all-then-add) and large instances (n up to 1030/4100, k up to n); Remove with a node carrying another vector. Plus search-object histories: every sequence of <= 3/4 steps over configuration calls, index-level calls and 'another search object executes'; the object executed after every step must answer like a fresh object given the same calls. Refused adds (zero / wrong-dimension / nil vector) on unused, live and removed ids; instances of 33 000 / 70 000 vectors.",
   note=NOTE)
 C["C02"] = dict(engine="histmc", cat="model_checking", technique=HIST,
-  text="For each of the five kinds x metric x construction parameters x training set, every Add/Remove/Flush history up to the bound is executed on the real index (HNSW level an enumerated choice); every query / node-id / multi-query observation is judged: live+eligible+distinct hits, kind-defined score (ADC recomputed from private codebooks for PQ/IVFPQ), order, k, node==query, aggregation rule, flush invariance for exhaustive kinds. Plus size sweeps and large instances as in C01 for every kind, prepared search objects re-executed after each operation, Remove with a node carrying data, and refused Train calls before each observation.",
+  text="For each of the five kinds x metric x construction parameters x training set, every Add/Remove/Flush history up to the bound is executed on the real index (HNSW level an enumerated choice); every query / node-id / multi-query observation is judged: live+eligible+distinct hits, kind-defined score (ADC recomputed from private codebooks for PQ/IVFPQ), order, k, node==query, aggregation rule, flush invariance for exhaustive kinds. Plus size sweeps and large instances as in C01 for every kind, prepared search objects re-executed after each operation, Remove with a node carrying data, and refused Train calls before each observation. Plus search-object histories: every sequence of <= 3/4 steps over configuration calls, index-level calls and 'another search object executes'; the object executed after every step must answer like a fresh object given the same calls. Plus the same spaces under affine transforms of the data (scale 2^-20, 2^-40, 2^20; offsets 4096, 2^20, 20000) with tolerances relative to the data's unit. Refused adds on ids of every status; id 0 (bigids base 2^32-1, HNSW excepted); flat instances of 33 000 / 70 000 vectors.",
   note=NOTE + " Approximate kinds are judged for soundness here; completeness is C12/C13/C14.")
 C["C06"] = dict(engine="histmc", cat="model_checking", technique=HIST,
-  text="Every history over valid and failing Add/AddWithID (failure in the 1st or 3rd sub-index), Remove of live/removed/unknown ids, Flush and re-add of removed ids, on the real hybrid index (5 sub-index configurations) and on each of the seven single indexes; after every transition each modality is probed through the hybrid search and directly on the sub-indexes and compared with a map id->content. Values whose acceptance is the implementation's choice (NaN, 1e300) are included: whichever way the call goes, it must go that way as a whole.",
+  text="Every history over valid and failing Add/AddWithID (failure in the 1st or 3rd sub-index), Remove of live/removed/unknown ids, Flush and re-add of removed ids, on the real hybrid index (5 sub-index configurations) and on each of the seven single indexes; after every transition each modality is probed through the hybrid search and directly on the sub-indexes and compared with a map id->content. Values whose acceptance is the implementation's choice (NaN, 1e300) are included: whichever way the call goes, it must go that way as a whole. Every failing document (incl. a vector whose float32 norm underflows) is also offered on ids that are still live; the caller's metadata map is overwritten right after the call returned.",
   note=NOTE)
 C["C12"] = dict(engine="histmc", cat="model_checking", technique=HIST + "; HNSW level and map-order-dependent entry-point re-election are enumerated environment choices",
-  text="Every Add(value, level)/Remove(any live id)/Flush(every legal re-elected entry point) history within the bounds on the real HNSWIndex; in every state non-emptiness, exactness under the 2M precondition, and the private-state reachability invariant are evaluated. Plus tails for M in {2,3,4,8,16}: all removed then one added (no flush), all but the last removed, entry point updated, up to 3M+4 / 6M+8 vectors.",
+  text="Every Add(value, level)/Remove(any live id)/Flush(every legal re-elected entry point) history within the bounds on the real HNSWIndex; in every state non-emptiness, exactness under the 2M precondition, and the private-state reachability invariant are evaluated. Plus tails for M in {2,3,4,8,16}: all removed then one added (no flush), all but the last removed, entry point updated, up to 3M+4 / 6M+8 vectors. Plus search-object histories: every sequence of <= 3/4 steps over configuration calls, index-level calls and 'another search object executes'; the object executed after every step must answer like a fresh object given the same calls. (incl. index-level SetEfSearch); id 0 as an explicit id (the second vector inserted).",
   note=NOTE + " One genuine defect is recorded as known finding (pruning heuristic cuts vertices off once a list has overflowed).")
 C["C13"] = dict(engine="histmc", cat="model_checking", technique=HIST,
-  text="All training sequences over a small alphabet (duplicates, empty clusters, identical centroids) x nlist x metric x dim, then every Add/Remove/Flush history up to the bound; full probe judged against brute force, partial probes against every valid set of p nearest centroids, monotonicity in p, placement invariant, untrained use. Plus large instances (n up to 1030/4100, k up to n) and refused Train calls before each observation.",
+  text="All training sequences over a small alphabet (duplicates, empty clusters, identical centroids) x nlist x metric x dim, then every Add/Remove/Flush history up to the bound; full probe judged against brute force, partial probes against every valid set of p nearest centroids, monotonicity in p, placement invariant, untrained use. Plus large instances (n up to 1030/4100, k up to n) and refused Train calls before each observation. Plus search-object histories: every sequence of <= 3/4 steps over configuration calls, index-level calls and 'another search object executes'; the object executed after every step must answer like a fresh object given the same calls. Plus the same spaces under affine transforms of the data (scale 2^-20, 2^-40, 2^20; offsets 4096, 2^20, 20000) with tolerances relative to the data's unit.",
   note=NOTE)
 C["C14"] = dict(engine="histmc", cat="model_checking", technique=HIST,
-  text="Every nbits in 1..16 the constructors accept x M x nlist x metric x dim: lattice training, every Add/Remove/Flush history up to the bound; codes, scores, ranking and error bound are recomputed from the private codebooks; both Train preconditions probed at their boundary sizes. Plus large instances and refused Train calls on trained, populated indexes before each observation.",
+  text="Every nbits in 1..16 the constructors accept x M x nlist x metric x dim: lattice training, every Add/Remove/Flush history up to the bound; codes, scores, ranking and error bound are recomputed from the private codebooks; both Train preconditions probed at their boundary sizes. Plus large instances and refused Train calls on trained, populated indexes before each observation. Plus the same spaces under affine transforms of the data (scale 2^-20, 2^-40, 2^20; offsets 4096, 2^20, 20000) with tolerances relative to the data's unit. M = 9 .. 33 sub-quantisers.",
   note=NOTE)
 
 C["C03"] = dict(engine="histmc", cat="model_checking", technique=HIST,
-  text="Every Add/Replace/Remove/Flush history up to the bound over a text alphabet exercising normalisation and segmentation corner cases is executed on the real BM25 index; every (query, k, restriction) and multi-query/aggregation observation is compared with a from-scratch float64 Okapi BM25 over the not-yet-flushed corpus, and the private running totals with the model's. Plus every Unicode scalar value (and letter x combining-mark pair) as a token, raw / normal-form / upper-cased on either side.",
+  text="Every Add/Replace/Remove/Flush history up to the bound over a text alphabet exercising normalisation and segmentation corner cases is executed on the real BM25 index; every (query, k, restriction) and multi-query/aggregation observation is compared with a from-scratch float64 Okapi BM25 over the not-yet-flushed corpus, and the private running totals with the model's. Plus every Unicode scalar value (and letter x combining-mark pair) as a token, raw / normal-form / upper-cased on either side. Plus search-object histories: every sequence of <= 3/4 steps over configuration calls, index-level calls and 'another search object executes'; the object executed after every step must answer like a fresh object given the same calls. Token / document lengths 1 .. 131 073 (2^20+1) in seven families; hash-colliding term pairs (crc32 x3, adler32, fnv, djb2, java31, sdbm) and anagrams as a corpus; restrictions naming an id twice.",
   note=NOTE + " uax29 / x-text NFKC are trusted as the tokeniser and called directly by the oracle.")
 C["C04"] = dict(engine="histmc", cat="model_checking", technique=HIST,
-  text="Every Add/Remove history up to the bound over documents mixing all value kinds; in every state every single filter, its Not(), the empty filter list and every filter tree over a basis of up to 6 distinct-answer filters is compared with direct predicate evaluation. Remove is given nodes carrying no / the indexed / another document's / unknown-field metadata.",
+  text="Every Add/Remove history up to the bound over documents mixing all value kinds; in every state every single filter, its Not(), the empty filter list and every filter tree over a basis of up to 6 distinct-answer filters is compared with direct predicate evaluation. Remove is given nodes carrying no / the indexed / another document's / unknown-field metadata. Plus search-object histories: every sequence of <= 3/4 steps over configuration calls, index-level calls and 'another search object executes'; the object executed after every step must answer like a fresh object given the same calls. Operands with a third decimal; document sets of 13 000 / 140 000 with selective AND chains in both leaf orders; the caller's metadata map is overwritten right after Add returned.",
   note=NOTE + " One genuine defect (mixed-sign numeric comparison, root cause in the BSI dependency) is a known finding identified by a witness predicate.")
 C["C05"] = dict(engine="histmc", cat="model_checking", technique=HIST,
-  text="All 8 sub-index configurations x every AddWithID/Add/Remove history up to the bound; in every state every query of the alphabet (vector x text x filter shape x k x fusion x aggregation) is compared with the composed oracle: model filter set, exact filtered k-NN, reference BM25 top-k, fusion rule, ranking. Plus option pass-through: for each vector kind every k x nProbes x efSearch x threshold x filter combination against a direct search of the wrapped index.",
+  text="All 8 sub-index configurations x every AddWithID/Add/Remove history up to the bound; in every state every query of the alphabet (vector x text x filter shape x k x fusion x aggregation) is compared with the composed oracle: model filter set, exact filtered k-NN, reference BM25 top-k, fusion rule, ranking. Plus option pass-through: for each vector kind every k x nProbes x efSearch x threshold x filter combination against a direct search of the wrapped index. Plus search-object histories: every sequence of <= 3/4 steps over configuration calls, index-level calls and 'another search object executes'; the object executed after every step must answer like a fresh object given the same calls. The default fusion (no call) and WithFusionKind are part of the alphabet; every instance customises the object it got from DefaultFusionConfig().",
   note=NOTE + " Queries whose per-modality cut falls on a tie are skipped and counted; three ambiguous corners are accepted either way (listed in evidence assumptions).")
 
 DOM = "exhaustive enumeration of a bounded input lattice on the real functions (domainmc)"
 C["C07"] = dict(engine="histmc", cat="model_checking", technique=HIST + "; per state a differential round-trip oracle (source vs reloaded, lock-step continuation)",
-  text="For each of the eight kinds, every state reached by Add/Remove/Flush histories up to the bound (plus untrained/empty) is written, read into a fresh index through a counting reader over stream+sentinel, and compared: byte counts, exact consumption, removed ids absent, identical answers, identical behaviour under every further operation. The stream written twice back to back must decode, copy after copy, through *os.File, bufio, bytes.Buffer, strings.Reader, MultiReader and one-byte readers.",
+  text="For each of the eight kinds, every state reached by Add/Remove/Flush histories up to the bound (plus untrained/empty) is written, read into a fresh index through a counting reader over stream+sentinel, and compared: byte counts, exact consumption, removed ids absent, identical answers, identical behaviour under every further operation. The stream written twice back to back must decode, copy after copy, through *os.File, bufio, bytes.Buffer, strings.Reader, MultiReader and one-byte readers. Plus text indexes whose terms are 255 .. 131 073 (2^20) bytes long and whose terms collide under the usual 32-bit hashes.",
   note=NOTE + " For kinds holding a BM25 index, writing is compared with an explicitly flushed independent copy (WriteTo is specified to flush first and a flush legitimately changes BM25 statistics).")
 C["C16"] = dict(engine="domainmc", cat="fault_enumeration", technique="exhaustive enumeration of truncation points and mismatch pairs over every state reached by history BFS (domainmc over histmc states)",
-  text="Every strict prefix of the serialisation of every reached state of every kind is fed to a fresh receiver and must be rejected; the complete kind / one-parameter / version / magic mismatch matrix must be rejected; store segments with a truncated, empty or missing component file must contribute nothing.",
+  text="Every strict prefix of the serialisation of every reached state of every kind is fed to a fresh receiver and must be rejected; the complete kind / one-parameter / version / magic mismatch matrix must be rejected; store segments with a truncated, empty or missing component file must contribute nothing. Receivers in the mismatch matrix are also used / tuned (SetEfSearch) / have refused or accepted a read before; a receiver that differs in efSearch alone.",
   note=NOTE)
 C["C18"] = dict(engine="domainmc", cat="exploration", technique=DOM,
-  text="All vectors over a 15-value magnitude-spanning alphabet in dimensions 1-2 (7 values in d=3), all ordered pairs, all triples for the triangle inequality, structured d=64/512 families: every stated law is evaluated on every member. Plus every batch length 0..600/4200 x 4 dimensions x 3 kinds, bit-equal to the scalar call.",
+  text="All vectors over a 15-value magnitude-spanning alphabet in dimensions 1-2 (7 values in d=3), all ordered pairs, all triples for the triangle inequality, structured d=64/512 families: every stated law is evaluated on every member. Plus every batch length 0..600/4200 x 4 dimensions x 3 kinds, bit-equal to the scalar call. Scalings 2^-60 .. 2^60; batches whose queries are views into one backing array.",
   note="Exhaustive over the stated lattice only; tolerances 8*d*2^-23 relative to operand magnitudes; runs on the instrumented copy of /repo.")
 C["C19"] = dict(engine="domainmc", cat="exploration", technique=DOM,
-  text="All result lists up to length 3/4 over ids x scores incl. +-Inf/NaN with every permutation, every k and cutoff, all score lists up to length 5 for autocut, all pairs of 125 score maps for each fusion, all NaN-free lists for merge.",
+  text="All result lists up to length 3/4 over ids x scores incl. +-Inf/NaN with every permutation, every k and cutoff, all score lists up to length 5 for autocut, all pairs of 125 score maps for each fusion, all NaN-free lists for merge. Plus fusion OBJECT histories: every sequence of <= 5/6 steps over customise-the-default-configuration / pristine? / build fusions / combine (12 input pairs of sizes 1..90), each Combine judged against the rule of the configuration the object was built with.",
   note="Exhaustive over the stated lattice only; NaN propagation not judged; runs on the instrumented copy of /repo.")
 C["C20"] = dict(engine="domainmc", cat="exploration", technique=DOM + " + differential history check (train once vs twice)",
-  text="All training sequences over a small lattice x k x maxIter x metric for k-means; all 65536 half bit patterns and all adjacent-half midpoints (thorough: every float32 in the half normal range) for float16; level-boundary sweeps for int8; bit-exactness for float32. Plus every operation sequence of length <= 5/6 over one int8 quantiser object (Train x3, SetAbsMax x3, Quantize, Dequantize) against a fresh quantiser with the same range.",
+  text="All training sequences over a small lattice x k x maxIter x metric for k-means; all 65536 half bit patterns and all adjacent-half midpoints (thorough: every float32 in the half normal range) for float16; level-boundary sweeps for int8; bit-exactness for float32. Plus every operation sequence of length <= 5/6 over one int8 quantiser object (Train x3, SetAbsMax x3, Quantize, Dequantize) against a fresh quantiser with the same range. k-means also under affine transforms of the training data; convergence = one more iteration changes nothing.",
   note="Exhaustive over the stated lattices only; runs on the instrumented copy of /repo.")
 
 STORE_NOTE = ("Runs on the L1+L2 instrumented copy of /repo (imports of sync, sync/atomic, math/rand/v2, os, time redirected; go/chan/select in the storage files rewritten to internal/vrt) over an in-memory file system with the store's worker and per-segment goroutines as scheduler threads. "
   "Conformance: the repository's suite passes on the rewritten package in pass-through mode. The store wraps every memtable and segment around the SAME template index objects (F12): several genuine consequences are known findings identified by witness predicates; because of that sharing many protocol-level changes are behaviourally invisible on this tree (stated limitation).")
 SCHED = "stateless exploration of thread interleavings on the real code under a cooperative scheduler (DFS over choice prefixes, iterative preemption bounding, bounded environment deviations and blocking-switch deviations, state-key pruning, replay self-check) (schedmc)"
 C["C08"] = dict(engine="histmc", cat="model_checking", technique=HIST + " + " + SCHED,
-  text="Every sequential history over Add/AddWithID/Remove/Flush/Rotate/Drain/Compact/Tick/Evict/Search up to the bound for 3 memtable limits x 2 flush thresholds x 2 compaction thresholds x 2 template sets, and every bounded interleaving of user threads with the background workers in four scenarios; after every transition / on every interleaving every probe query is compared with the set of acknowledged live documents.",
+  text="Every sequential history over Add/AddWithID/Remove/Flush/Rotate/Drain/Compact/Tick/Evict/Search up to the bound for 3 memtable limits x 2 flush thresholds x 2 compaction thresholds x 2 template sets, and every bounded interleaving of user threads with the background workers in four scenarios; after every transition / on every interleaving every probe query is compared with the set of acknowledged live documents. Plus an Idle operation (the harness advances the store's clock by 1000 h, then the tickers fire), narrow-deep shards (depth 7/8 over add / flush / search / evict / idle) and search-object histories of the store's search object. The canonical key is taken before the observation searches (which load segments).",
   note=STORE_NOTE)
 C["C09"] = dict(engine="histmc", cat="model_checking", technique=HIST,
-  text="Every multi-session history (add | flush | search)* close-reopen with fresh templates, up to 3/4 sessions, for 3 memtable limits x 3 vector template kinds x 2 template sets; durable documents must be found in every later state; segment file names are never created twice (from the file-system log). Plus a fault sweep: every file-system call of a Flush / of Close's final flush fails in turn (EIO) under 3 base histories x 4 continuations; every nil answer promised durability.",
+  text="Every multi-session history (add | flush | search)* close-reopen with fresh templates, up to 3/4 sessions, for 3 memtable limits x 3 vector template kinds x 2 template sets; durable documents must be found in every later state; segment file names are never created twice (from the file-system log). Plus a fault sweep: every file-system call of a Flush / of Close's final flush fails in turn (EIO) under 3 base histories x 4 continuations; every nil answer promised durability. Plus identifier neighbourhoods of 10^4..10^15 and 2^16..2^62 with a served-documents probe, and two schedule x crash scenarios: in every bounded interleaving of Flush / Close with the background flush worker the directory is copied at the instant the call returns nil and reopened with fresh templates.",
   note=STORE_NOTE)
 C["C10"] = dict(engine="crashmc", cat="fault_enumeration", technique="exhaustive enumeration of crash images (every prefix of the logged file-system operations x every byte prefix of the in-flight write), each reopened and checked on the real code (crashmc)",
-  text="For every history in the bound, every possible on-disk image at a process death inside a flush or a compaction is materialised and reopened with fresh templates: open and searches succeed, durable documents are found, the torn segment contributes nothing, identifiers are not reused. For crash points at operation boundaries a second crash is explored: every operation boundary and mid-write point of the recovery flush (directories with two incomplete segments).",
+  text="For every history in the bound, every possible on-disk image at a process death inside a flush or a compaction is materialised and reopened with fresh templates: open and searches succeed, durable documents are found, the torn segment contributes nothing, identifiers are not reused. For crash points at operation boundaries a second crash is explored: every operation boundary and mid-write point of the recovery flush (directories with two incomplete segments). In-flight operations also include the final flush of Close (frozen / active memtable) and an Open. Plus read-only restarts: session 1 opens, is searched and closes, session 2 flushes - identifiers stay above everything in the crash image.",
   note=STORE_NOTE + " Fault model = process death; power-loss reordering is outside the statement (comet never syncs).")
 C["C11"] = dict(engine="schedmc", cat="model_checking", technique=SCHED + "; data races: separate free-running race-detector pass over the same scenario bodies",
-  text="Six 3-thread scenarios on one shared instance for each of eight index kinds plus five store scenarios: every interleaving with at most 2 (quick) / 3 (thorough) preemptions (one fewer for the store scenarios) is executed on the real code and judged for panics, deadlocks, spurious failures, visibility and id uniqueness; the race detector runs over free-running executions of the same bodies. Snapshots written by WriteTo during concurrent use (hybrid kind) are read back outside the schedule and judged (not torn; visibility).",
+  text="Six 3-thread scenarios on one shared instance for each of eight index kinds plus five store scenarios: every interleaving with at most 2 (quick) / 3 (thorough) preemptions (one fewer for the store scenarios) is executed on the real code and judged for panics, deadlocks, spurious failures, visibility and id uniqueness; the race detector runs over free-running executions of the same bodies. Snapshots written by WriteTo during concurrent use (hybrid kind) are read back outside the schedule and judged (not torn; visibility). Plus S12: auto ids across instances interleaved with refused adds.",
   note=STORE_NOTE + " Scheduling points at synchronisation operations; atomics sequentially consistent; the data-race clause is a sampling cross-check, not enumeration.")
 C["C17"] = dict(engine="histmc", cat="model_checking", technique=HIST + " + " + SCHED + "; file-system faults injected by (kind, n-th call)",
-  text="Every sequence of Open / Open-with-one-injected-fault (5 fault sites) / foreign LOCK / Close / use on 3 handle slots up to the bound, with every public method on every closed handle after each transition; plus every bounded interleaving of Open||Open||Open, Close||Open, Close||Close, Close||use, Add||Close.",
+  text="Every sequence of Open / Open-with-one-injected-fault (5 fault sites) / foreign LOCK / Close / use on 3 handle slots up to the bound, with every public method on every closed handle after each transition; plus every bounded interleaving of Open||Open||Open, Close||Open, Close||Close, Close||use, Add||Close. Open also comes with another subset of templates (may be refused: then a failed open like any other) and through an alias path of the directory (a symbolic link).",
   note=STORE_NOTE)
 
 NA = {
